@@ -215,6 +215,59 @@ pub fn cff_facts(d: &[u8]) -> Option<CffFacts> {
     Some(f)
 }
 
+/// (count, data0, offSize, end) of a CFF2 INDEX (32-bit count)
+fn index2_at(d: &[u8], at: usize) -> Option<(usize, usize, usize, usize)> {
+    let count = be32(d, at)? as usize;
+    if count == 0 {
+        return Some((0, 0, 0, at + 4));
+    }
+    let os = *d.get(at + 4)? as usize;
+    let offs = at + 5;
+    let last = off(d, offs + count * os, os)?;
+    let data0 = offs + (count + 1) * os - 1;
+    Some((count, data0, os, data0 + last))
+}
+
+/// Facts about a CFF2 table: number of charstrings, Font DICTs, subroutine INDEX sizes, variation store present.
+pub fn cff2_facts(d: &[u8]) -> Option<(CffFacts, bool)> {
+    let hdr = *d.get(2)? as usize;
+    let top_len = be16(d, 3)? as usize;
+    let top = d.get(hdr..hdr + top_len)?;
+    let (gcount, _, _, _) = index2_at(d, hdr + top_len)?;
+    let ops = dict_ops(top);
+    let get = |op: u16| ops.iter().find(|o| o.0 == op).map(|o| o.1.clone());
+    let cs = get(17)?.first().copied()? as usize;
+    let (n_glyphs, _, _, _) = index2_at(d, cs)?;
+    let mut f = CffFacts { cid: false, n_glyphs, global_subrs: gcount, local_subr_indices: 0, fd_count: 0 };
+    if let Some(fda) = get(0x0c24).and_then(|v| v.first().copied()) {
+        let fda = fda as usize;
+        let (count, data0, os, _) = index2_at(d, fda)?;
+        f.fd_count = count;
+        for i in 0..count {
+            let a = off(d, fda + 5 + i * os, os)?;
+            let b = off(d, fda + 5 + (i + 1) * os, os)?;
+            let fd = d.get(data0 + a..data0 + b)?;
+            if let Some(p) = dict_ops(fd).iter().find(|o| o.0 == 18) {
+                if p.1.len() == 2 {
+                    let (size, at) = (p.1[0] as usize, p.1[1] as usize);
+                    if let Some(pd) = d.get(at..at + size) {
+                        if let Some(sr) = dict_ops(pd).iter().find(|o| o.0 == 19) {
+                            if let Some(&rel) = sr.1.first() {
+                                if let Some((c, _, _, _)) = index2_at(d, at + rel as usize) {
+                                    if c > 0 {
+                                        f.local_subr_indices += 1;
+                                    }
+                                }
+                            }
+                        }
+                    }
+                }
+            }
+        }
+    }
+    Some((f, get(24).is_some()))
+}
+
 // ---- WOFF 1 writer -----------------------------------------------------------------------------------
 
 /// Re-wrap a table set as WOFF 1: every table zlib-compressed at `level` when that is shorter.
